@@ -136,6 +136,12 @@ pub fn profile(prop: Prop, thorough: bool) -> Profile {
             p.forget = true;
             // C05 is about every sequence of safe calls: sizes near usize::MAX included
             p.huge_args = prop == Prop::C05;
+            // ... and every element type: zero-sized with a destructor, destructors that panic
+            // (C06: zero-sized objects with destructors are counted in and out)
+            p.zst_drop = true;
+            p.zst_focus = true;
+            p.drop_panics = prop == Prop::C05;
+            p.elem = [2, 7, 2];
         }
         Prop::C07 => {
             p.weights = cat(&[MAP_BASIC, &scale(HANDLES, 2, 1), &scale(MOVERS, 2, 1), &scale(SET_BASIC, 1, 3), &[(G::CloneTo, 3), (G::CloneFrom, 4), (G::SCloneFrom, 1)]]);
@@ -146,6 +152,7 @@ pub fn profile(prop: Prop, thorough: bool) -> Profile {
             p.max_universe = 256;
             p.long_runs = false;
             p.cancel = true;
+            p.zst_focus = true;
         }
         Prop::C08 => {
             p.weights = cat(&[&scale(MAP_BASIC, 1, 2), &scale(HANDLES, 1, 4), &scale(MOVERS, 1, 1), &[(G::IterCheck, 30), (G::Drain, 8), (G::IntoIter, 6), (G::SIterCheck, 10), (G::SDrain, 4), (G::SIntoIter, 3), (G::SInsert, 20), (G::SRemove, 8), (G::SRetain, 2), (G::SReserve, 2), (G::CloneFrom, 3), (G::CloneTo, 2), (G::SCloneFrom, 2), (G::SCloneTo, 1)]]);
@@ -169,9 +176,9 @@ pub fn profile(prop: Prop, thorough: bool) -> Profile {
             p.elem = [6, 3, 1];
         }
         Prop::C17 => {
-            p.weights = cat(&[MAP_BASIC, HANDLES, &scale(MOVERS, 2, 1), &scale(SET_BASIC, 1, 3), &[(G::CloneTo, 2), (G::CloneFrom, 3), (G::TryReserve, 6), (G::Reserve, 4), (G::STryReserve, 2)]]);
+            p.weights = cat(&[MAP_BASIC, HANDLES, &scale(MOVERS, 2, 1), &scale(SET_BASIC, 1, 3), &[(G::CloneTo, 2), (G::CloneFrom, 3), (G::TryReserve, 6), (G::Reserve, 4), (G::STryReserve, 2), (G::SAlgebra, 6), (G::SCloneFrom, 1), (G::IterCheck, 2), (G::SIterCheck, 1), (G::Drain, 1), (G::IntoIter, 1), (G::EqCheck, 1), (G::DebugCheck, 1), (G::SFromIter, 1)]]);
             p.maps = 2;
-            p.sets = 1;
+            p.sets = 2;
             p.elem = [5, 4, 1];
             p.huge_args = true;
             p.max_len = 60;
